@@ -470,7 +470,7 @@ def rule_drop_nonblocking(m, rep, rid='R5'):
 
 
 # ------------------------------------------------------------------ C11
-def rule_sentinel(m, rep):
+def rule_sentinel(m, rep, count=True):
     """C11-R1/R2: the sentinel is armed before run(), disarmed only after run() returned normally, dropped on both the
     normal and the unwind path; its Drop respawns exactly one worker and counts exactly one panic iff still armed.
     The 'armed' state is whatever field cancel() overwrites (a bool, or an Option that cancel() sets to None)."""
@@ -582,11 +582,15 @@ def rule_sentinel(m, rep):
         ct = count_events(ib, lambda x: x in sp, starts=t_edge)
         cp = count_events(ib, lambda x: x in pn, starts=t_edge)
         cf = count_events(ib, lambda x: x in sp or x in pn, starts=f_edge)
+        if not count:
+            # properties that do not talk about the panic count (C08, C09) need the respawn only
+            cp = {1}
+            cf = count_events(ib, lambda x: x in sp, starts=f_edge)
         okt = ct == {1} and cp == {1}
         okf = cf == {0}
-        pre = [x for x in sp | pn if bi in reach(ib, [x])]
+        pre = [x for x in (sp | pn if count else sp) if bi in reach(ib, [x])]
         okf = okf and not pre
-        msg = 'armed: panics += 1 once and exactly one respawn; disarmed: nothing'
+        msg = 'armed: panics += 1 once and exactly one respawn; disarmed: nothing' if count else 'armed: exactly one respawn; disarmed: none'
         if not okt:
             msg = 'when the worker thread panicked the sentinel respawns %s time(s) and counts %s time(s) per path: every panic ' \
                   'must respawn exactly one worker (unconditionally) and be counted once' % (sorted(ct), sorted(cp))
